@@ -196,6 +196,7 @@ func CheckC01(e *Env) int {
 	progs = append(progs, injectorTemplateForms()...)
 	// several value variables in one injector whose types suggest one and the same name
 	progs = append(progs, sameNamedValuesFamily()...)
+	progs = append(progs, variadicBlankParamFamily()...)
 	results := RunPool(e, progs, PoolOpts{Execute: true, Name: "c01"})
 	for _, pr := range results {
 		EvalAccepted(pr)
@@ -271,6 +272,7 @@ func CheckC02(e *Env) int {
 	// a parameter named like a later local of an assignable type
 	progs = append(progs, paramLocalCollisionFamily()...)
 	// nothing to construct: the designated argument comes back, not another assignable one
+	progs = append(progs, localShadowsSetVarFamily()...)
 	progs = append(progs, passThroughArgsFamily()...)
 	// same-named packages with same-named members
 	progs = append(progs, twinPackagesFamily()...)
